@@ -266,13 +266,13 @@ pub fn fixture_class(i: usize) -> SClass {
 			// a class that already has an InnerClasses attribute and a nest
 			c.inner_classes = Some(vec![
 				SInnerClass { inner: js("p/A$Pre"), outer: Some(js("p/A")), name: Some(js("Pre")), flags: 0x0008 },
-				SInnerClass { inner: js("p/D"), outer: None, name: None, flags: 0 },
+				SInnerClass { inner: js(CLS[3]), outer: None, name: None, flags: 0 },
 			]);
-			c.nest_members = Some(vec![js("p/B"), js("p/E")]);
+			c.nest_members = Some(vec![js(CLS[1]), js(CLS[4])]);
 		},
-		1 => c.nest_host = Some(js("p/A")),
+		1 => c.nest_host = Some(js(CLS[0])),
 		2 => {},
-		_ => c.permitted_subclasses = Some(vec![js("p/C"), js("p/F")]),
+		_ => c.permitted_subclasses = Some(vec![js(CLS[2]), js(CLS[5])]),
 	}
 	cfmodel::gen::normalize(&mut c);
 	c
